@@ -296,6 +296,69 @@ fn run(cases: &str, out_path: &str, nworkers: usize) {
     println!("SUMMARY {}", json!({"cases": total, "records": all.len(), "outcomes": by}));
 }
 
+
+// ------------------------------------------------------------------------------------------------ the tool's --dump printer
+fn cli_run(cases: &str, out_path: &str, binary: &str, work: &str, nthreads: usize) {
+    let tpl = std::sync::Arc::new(templates());
+    let lines: Vec<String> = BufReader::new(std::fs::File::open(cases).unwrap()).lines().flatten().collect();
+    let lines = std::sync::Arc::new(lines);
+    std::fs::create_dir_all(work).unwrap();
+    let next = std::sync::Arc::new(std::sync::atomic::AtomicUsize::new(0));
+    let mut handles = vec![];
+    for w in 0..nthreads {
+        let (tpl, lines, next, binary, work) = (tpl.clone(), lines.clone(), next.clone(), binary.to_string(), work.to_string());
+        handles.push(std::thread::spawn(move || {
+            let mut recs: Vec<Value> = vec![];
+            loop {
+                let i = next.fetch_add(1, Ordering::SeqCst);
+                if i >= lines.len() { break; }
+                let c: Value = serde_json::from_str(&lines[i]).expect("case json");
+                let bytes = case_bytes(&c, &tpl);
+                let path = format!("{}/cli{}.dmp", work, w);
+                std::fs::write(&path, &bytes).unwrap();
+                for brief in [false, true] {
+                    let mut cmd = std::process::Command::new(&binary);
+                    cmd.arg("--dump").arg("--no-color");
+                    if brief { cmd.arg("--brief"); }
+                    let mut child = cmd.arg(&path).env("RUST_BACKTRACE", "0").stdout(std::process::Stdio::null()).stderr(std::process::Stdio::piped()).spawn().expect("spawn minidump-stackwalk");
+                    let t0 = std::time::Instant::now();
+                    let status = loop {
+                        match child.try_wait().unwrap() {
+                            Some(st) => break Some(st),
+                            None if t0.elapsed().as_secs() >= 30 => { let _ = child.kill(); let _ = child.wait(); break None; }
+                            None => std::thread::sleep(std::time::Duration::from_millis(2)),
+                        }
+                    };
+                    let mut err = String::new();
+                    if let Some(mut e) = child.stderr.take() { use std::io::Read; let _ = e.read_to_string(&mut err); }
+                    let outcome = match status.map(|s| s.code()) { None => "hang", Some(Some(0)) => "ok", Some(Some(1)) => "err", Some(Some(101)) => "panic", Some(Some(_)) => "abort", Some(None) => "abort" };
+                    let msg: String = if matches!(outcome, "ok" | "err") { String::new() } else { err.lines().find(|l| l.contains("anic")).or(err.lines().last()).unwrap_or("").chars().take(160).collect() };
+                    recs.push(json!({"i": i, "len": bytes.len(), "outcome": outcome, "peak": 0, "ms": t0.elapsed().as_millis() as u64, "streams_ok": 0, "msg": msg, "brief": brief}));
+                    if outcome != "ok" && outcome != "err" { break; }
+                }
+            }
+            recs
+        }));
+    }
+    let mut all: Vec<Value> = vec![];
+    for h in handles { all.extend(h.join().unwrap()); }
+    all.sort_by_key(|v| (v["i"].as_u64().unwrap(), v["brief"].as_bool().unwrap()));
+    // one record per case: the worst of the two invocations
+    let mut per: std::collections::BTreeMap<u64, Value> = Default::default();
+    for r in all {
+        let i = r["i"].as_u64().unwrap();
+        let bad = |v: &Value| !matches!(v["outcome"].as_str().unwrap(), "ok" | "err");
+        match per.get(&i) { Some(old) if bad(old) || !bad(&r) => {} _ => { per.insert(i, r); } }
+    }
+    let mut f = std::io::BufWriter::new(std::fs::File::create(out_path).unwrap());
+    let mut by: std::collections::BTreeMap<String, u64> = Default::default();
+    for r in per.values() {
+        writeln!(f, "{}", r).unwrap();
+        *by.entry(r["outcome"].as_str().unwrap().to_string()).or_insert(0) += 1;
+    }
+    println!("SUMMARY {}", json!({"cases": lines.len(), "records": per.len(), "outcomes": by}));
+}
+
 // ------------------------------------------------------------------------------------------------ generators
 fn boundary(len: usize) -> Vec<u64> {
     let l = len as u64;
@@ -340,6 +403,27 @@ fn gen(kind: &str, arg: Option<&str>, out: &str) {
                             writeln!(f, "{}", json!({"k": "subst", "t": t, "p": [[off, 8, v]]})).unwrap();
                         }
                     }
+                }
+            }
+        }
+        "clidump" => {
+            // cases for the command-line tool's own raw-dump printer (minidump-stackwalk --dump, main.rs print_minidump_dump):
+            // every template as it is, every directory entry with its size / location replaced by boundary values (which yields
+            // empty, truncated and misplaced streams of every type), and every template truncated at a few places
+            for (t, (_, bytes)) in tpl.iter().enumerate() {
+                writeln!(f, "{}", json!({"k": "subst", "t": t, "p": []})).unwrap();
+                let (_, _, streams) = rich::layout(bytes);
+                for s in &streams {
+                    for (field, width) in [(4usize, 4usize), (8, 4)] {
+                        for v in boundary(bytes.len()) {
+                            writeln!(f, "{}", json!({"k": "subst", "t": t, "p": [[s.dir_entry_at + field, width, v]]})).unwrap();
+                        }
+                    }
+                    // an empty stream that is still inside the file
+                    writeln!(f, "{}", json!({"k": "subst", "t": t, "p": [[s.dir_entry_at + 4, 4, 0], [s.dir_entry_at + 8, 4, 32]]})).unwrap();
+                }
+                for len in [bytes.len() / 2, bytes.len() - 1] {
+                    writeln!(f, "{}", json!({"k": "trunc", "t": t, "len": len, "keepdir": true})).unwrap();
                 }
             }
         }
@@ -415,6 +499,7 @@ fn main() {
     let args: Vec<String> = std::env::args().collect();
     match args.get(1).map(|s| s.as_str()) {
         Some("worker") => worker(&args[2], args[3].parse().unwrap()),
+        Some("cli") => cli_run(&args[2], &args[3], &args[4], &args[5], args.get(6).and_then(|s| s.parse().ok()).unwrap_or(12)),
         Some("run") => run(&args[2], &args[3], args.get(4).and_then(|s| s.parse().ok()).unwrap_or(12)),
         Some("gen") => {
             if args[2] == "model" {
